@@ -71,6 +71,7 @@ type DataPlan struct {
 	Prop   bool
 	Panic  bool
 	Status []StatusCall
+	Early  bool // LMTPData sets the statuses BEFORE it reads the message (default: after)
 }
 
 func DefaultPlan() DataPlan { return DataPlan{Sizes: []int{4096}, Stop: -1, Ret: BNil, Prop: true} }
@@ -88,8 +89,12 @@ func (p DataPlan) Sx() *Sx {
 	for _, s := range p.Status {
 		st.Add(L(XS(s.Addr), s.Err.Sx()))
 	}
-	return L(A("plan"), L(A("sizes"), sizes), L(A("stop"), stop), L(A("ret"), p.Ret.Sx()),
+	pl := L(A("plan"), L(A("sizes"), sizes), L(A("stop"), stop), L(A("ret"), p.Ret.Sx()),
 		L(A("prop"), B(p.Prop)), L(A("panic"), B(p.Panic)), L(A("status"), st))
+	if p.Early {
+		pl.Add(L(A("early"), B(true)))
+	}
+	return pl
 }
 
 type SaslStep struct {
@@ -376,6 +381,11 @@ func (s *recSession) deliver(r io.Reader, status smtp.StatusCollector) (ret erro
 	if s.b.Gate != nil {
 		s.b.Gate("data-begin", k)
 	}
+	if status != nil && p.Early {
+		for _, sc := range p.Status {
+			status.SetStatus(sc.Addr, sc.Err.Err())
+		}
+	}
 	got, rerr := readPlanCap(r, p.Sizes, p.Stop, isPipe)
 	term := ErrKind(rerr)
 	planRet := p.Ret.Err()
@@ -406,7 +416,7 @@ func (s *recSession) deliver(r io.Reader, status smtp.StatusCollector) (ret erro
 			rec(true)
 		}
 	}()
-	if status != nil {
+	if status != nil && !p.Early {
 		for _, sc := range p.Status {
 			status.SetStatus(sc.Addr, sc.Err.Err())
 		}
